@@ -787,6 +787,10 @@ func c17FullPathFollowsParent(r *core.Run, rule string) {
 	}
 	seen := map[ssa.Value]bool{}
 	found := false
+	helperOfFP := map[*ssa.Function]bool{}
+	for _, h := range p.Helpers(fp) {
+		helperOfFP[h] = true
+	}
 	var back func(v ssa.Value, d int)
 	back = func(v ssa.Value, d int) {
 		if v == nil || seen[v] || d > 10 || found {
@@ -804,6 +808,14 @@ func c17FullPathFollowsParent(r *core.Run, rule string) {
 			}
 			for _, a := range x.Common().Args {
 				back(a, d+1)
+			}
+			// what a private helper of FullPath returns (mountPrefix: the parent's path and the mount point)
+			if cal := x.Common().StaticCallee(); cal != nil && cal != fp && helperOfFP[cal] {
+				for _, ret := range core.Returns(cal) {
+					for _, rv := range ret.Results {
+						back(rv, d+1)
+					}
+				}
 			}
 		case *ssa.Phi:
 			for _, e := range x.Edges {
